@@ -96,6 +96,7 @@ def check(ctx):
     ctx.notes['patterns_used_by_parser'] = n_used
 
     ctx.attempt(_grow)
+    ctx.attempt(_whitespace_normal_form)
     ctx.attempt(_fixpoint)
     ctx.attempt(_progress)
 
@@ -333,6 +334,49 @@ def fixpoint_loops(ctx, only_module, floor):
             ctx.ok('FIXPOINT', construct,
                    f"snapshot `{norm(snap_stmt)}`; subject re-derived each pass")
 
+
+
+def _whitespace_normal_form(ctx):
+    """reduce_whitespace leaves no run of blanks behind: its substitutions
+    feed each other (a later one writes the character an earlier one
+    collapses), so they have to be repeated until nothing changes.  The
+    interplay is decided on the constant patterns / replacements: applying
+    substitution i to the text substitution j>i writes (next to i's own
+    output) still changes it."""
+    fi = ctx.repo.func('plss_preprocess:reduce_whitespace')
+    subs = []
+    for c in walk_local(fi.node):
+        if isinstance(c, ast.Call) and (dotted(c.func) or '') == 're.sub' and len(c.args) >= 3:
+            p_ = ctx.fold.eval(c.args[0], {}, fi.module.name)
+            r_ = ctx.fold.eval(c.args[1], {}, fi.module.name)
+            if isinstance(p_, str) and isinstance(r_, str):
+                subs.append((p_, r_, c))
+    construct = 'reduce_whitespace repeats its substitutions until nothing changes'
+    if len(subs) < 2:
+        ctx.undecided('FIXPOINT', construct, 'substitutions not recognised')
+        return
+    feeds = []
+    for i, (pi, ri, ci) in enumerate(subs):
+        Li = rx.Lang(pi, 0)
+        for j, (pj, rj, cj) in enumerate(subs):
+            if j <= i or not rj:
+                continue
+            for s_ in (rj + ri, ri + rj, rj + rj):
+                if any(b > a and s_[a:b] != ri for a, b in Li.search_spans(s_)):
+                    feeds.append((i, j, s_))
+                    break
+    looped = [n for n in walk_local(fi.node) if isinstance(n, (ast.While, ast.For))
+              and all(any(c is x for x in ast.walk(n)) for _p, _r, c in subs)]
+    if not feeds:
+        ctx.ok('FIXPOINT', construct, 'the substitutions do not feed each other: one pass is stable')
+        return
+    i, j, s_ = feeds[0]
+    ctx.check(bool(looped), 'FIXPOINT', construct,
+              f"{len(feeds)} feeding pair(s), all inside a loop",
+              f"re.sub({subs[j][0]!r}, {subs[j][1]!r}) runs after re.sub({subs[i][0]!r}, {subs[i][1]!r}) and writes what that one "
+              f"collapses ({s_!r} is left behind), and the substitutions are applied once only: mixed tab/blank runs survive as "
+              f"runs of blanks, which the nested whitespace of the list regexes then multiplies per dot / dash leader",
+              key="FIXPOINT|reduce_whitespace|single-pass", where=common.loc(fi, subs[j][2]))
 
 
 def _fixpoint_tokens(ctx):
